@@ -12,12 +12,14 @@ namespace IstioModel.C08
 /-! ## 6. Main theorems -/
 
 /-- Hypotheses shared by the main theorems, each an explicit predicate on the inputs:
-    * `mig`   trust-domain migration leaves the rules unchanged (aliases: `trustdomain_alias_correct`);
+    * `mig`, `noalias`  trust-domain migration leaves the rules unchanged, in the compiler and in the
+              semantics (aliases: `trustdomain_alias_correct`);
     * `exact` every generated matcher means the policy value on this request (discharged by the
               `matcher_correct_*` theorems: `rulesExact_of_scope`);
     * `names` the generated policy names are distinct. -/
 structure Hyps (o : BuildOpts) (ps : List Policy) (req : Request) : Prop where
   mig : ∀ p ∈ ps, ∀ r ∈ p.rules, MigrationNoop o p.ns r
+  noalias : ∀ p ∈ ps, ∀ r ∈ p.rules, expandRule o.bundle r = r
   exact : ∀ p ∈ ps, ∀ r ∈ p.rules, RuleExact o req p.ns r
   names : EntriesDistinct o ps
 
@@ -90,12 +92,29 @@ theorem compile_correct_selected (o : BuildOpts) (ps : List Policy) (req : Reque
   cases (enforced Action.deny ps).any (policyMatches · req) <;>
     cases (enforced Action.allow ps).isEmpty <;> simp
 
+theorem expand_noalias (o : BuildOpts) (ps : List Policy)
+    (h : ∀ p ∈ ps, ∀ r ∈ p.rules, expandRule o.bundle r = r) : ps.map (expandPolicy o.bundle) = ps := by
+  rw [List.map_congr_left (g := id)]
+  · simp
+  · intro p hp
+    unfold expandPolicy
+    rw [List.map_congr_left (g := id) (h p hp)]
+    simp
+
+theorem specDecision_noalias (w : Workload) (o : BuildOpts) (ps : List Policy) (req : Request)
+    (h : ∀ p ∈ selectPolicies w ps, ∀ r ∈ p.rules, expandRule o.bundle r = r) :
+    specDecision w o.bundle ps req = decision (selectPolicies w ps) req := by
+  unfold specDecision
+  have : ps.filter (applies w) = selectPolicies w ps := rfl
+  rw [this, expand_noalias o _ h]
+
 /-- `compile_correct_http`: on an HTTP filter chain, for every workload, policy set and request. -/
 theorem compile_correct_http (w : Workload) (o : BuildOpts) (ps : List Policy) (req : Request)
     (_hhttp : o.forTCP = false)
     (h : Hyps o (selectPolicies w ps) req) (htr : Translatable o (selectPolicies w ps)) :
-    evalFilters (compile w o ps) req = specDecision w ps req :=
-  compile_correct_selected o (selectPolicies w ps) req h htr
+    evalFilters (compile w o ps) req = specDecision w o.bundle ps req := by
+  rw [specDecision_noalias w o ps req h.noalias]
+  exact compile_correct_selected o (selectPolicies w ps) req h htr
 
 /-- **Never more permissive** (any listener, nothing assumed translatable): a request the generated
     filters admit is admitted by the policy semantics. Untranslatable ALLOW rules are dropped,
@@ -138,18 +157,147 @@ theorem compile_sound_selected (o : BuildOpts) (ps : List Policy) (req : Request
     the policy, pointwise on requests. -/
 theorem compile_failclosed (w : Workload) (o : BuildOpts) (ps : List Policy) (req : Request)
     (h : Hyps o (selectPolicies w ps) req)
-    (hc : evalFilters (compile w o ps) req = true) : specDecision w ps req = true :=
-  compile_sound_selected o (selectPolicies w ps) req h hc
+    (hc : evalFilters (compile w o ps) req = true) : specDecision w o.bundle ps req = true := by
+  rw [specDecision_noalias w o ps req h.noalias]
+  exact compile_sound_selected o (selectPolicies w ps) req h hc
 
 theorem compile_failclosed_tcp (w : Workload) (o : BuildOpts) (ps : List Policy) (req : Request)
     (_htcp : o.forTCP = true) (h : Hyps o (selectPolicies w ps) req)
-    (hc : evalFilters (compile w o ps) req = true) : specDecision w ps req = true :=
+    (hc : evalFilters (compile w o ps) req = true) : specDecision w o.bundle ps req = true :=
   compile_failclosed w o ps req h hc
 
 
 
 
+
+/-! ## 12. Extended generators: JWT audiences / presenter / claims, experimental metadata -/
+
+theorem evalValAny_eq (l : List ValM) (x : MVal) : evalValAny l x = l.any (evalVal · x) := by
+  induction l with
+  | nil => simp [evalValAny]
+  | cons a t ih => simp [evalValAny, ih]
+
+theorem evalVal_orMatcher (ms : List ValM) (x : MVal) :
+    evalVal (orMatcher ms) x = ms.any (evalVal · x) := by
+  unfold orMatcher
+  split
+  · simp
+  · simp [evalVal, evalValAny_eq]
+
+theorem evalVal_str_str (v s : Str) : evalVal (.str (stringMatcher v)) (.str s) = strForm v s := by
+  have := matcher_correct_string v [] s (Or.inl rfl)
+  simpa [evalVal, stringMatcher] using this
+
+theorem evalVal_stringOr_str (vs : List Str) (s : Str) :
+    evalVal (stringOrMatcher vs) (.str s) = vs.any (strForm · s) := by
+  unfold stringOrMatcher
+  rw [evalVal_orMatcher, List.any_map]
+  apply any_congr_mem
+  intro v _
+  exact evalVal_str_str v s
+
+theorem evalVal_stringOr_strs (vs : List Str) (l : List Str) :
+    evalVal (stringOrMatcher vs) (.strs l) = false := by
+  unfold stringOrMatcher
+  rw [evalVal_orMatcher, List.any_map, List.any_eq_false]
+  intro v _
+  simp [evalVal]
+
+theorem any_any_comm {α β : Type} (l : List α) (m : List β) (f : α → β → Bool) :
+    l.any (fun a => m.any (fun b => f a b)) = m.any (fun b => l.any (fun a => f a b)) := by
+  rw [Bool.eq_iff_iff]
+  simp only [List.any_eq_true]
+  constructor
+  · rintro ⟨a, ha, b, hb, h⟩; exact ⟨b, hb, a, ha, h⟩
+  · rintro ⟨b, hb, a, ha, h⟩; exact ⟨a, ha, b, hb, h⟩
+
+/-- The matcher Istio builds for a (possibly list-valued) JWT claim: `or [list{one_of V}, V]`. -/
+theorem eval_jwtClaimsList (claims vs : List Str) (req : Request) :
+    evalMeta (jwtClaimsList claims (stringOrMatcher vs)) req =
+      vs.any (fun v => mvalForm v (claim req claims)) := by
+  unfold evalMeta jwtClaimsList claim
+  simp only
+  cases h : lookupMeta req jwtFilterName (jwtPayload :: claims) with
+  | none => simp [mvalForm]
+  | some x =>
+    cases x with
+    | str s =>
+      simp only [evalVal, evalValAny, evalVal_stringOr_str, Bool.or_false, Bool.false_or, mvalForm]
+    | strs l =>
+      simp only [evalVal, evalValAny, evalVal_stringOr_strs, Bool.or_false, mvalForm,
+        evalVal_stringOr_str]
+      exact any_any_comm l vs (fun s v => strForm v s)
+
+/-- `request.auth.audiences`, `request.auth.presenter`, `request.auth.claims[..]`: the aggregated
+    metadata matcher means OR over the values, for string and list claims. -/
+theorem matcher_correct_jwt_claims (g : Gen) (key : Str) (vs : List Str) (tcp : Bool) (req : Request)
+    (hg : g = .requestAudiences ∨ g = .requestPresenter ∨ g = .requestClaim) :
+    ExtExact g key vs tcp req := by
+  rcases hg with rfl | rfl | rfl
+  · refine ⟨fun p hp => by simp [genExtPermission] at hp, fun p hp => ?_⟩
+    cases tcp <;> simp only [genExtPrincipal, Bool.false_eq_true, if_false, if_true, Option.some.injEq] at hp
+    · subst hp
+      simp only [evalM, eval_jwtClaimsList, specAtom]
+    · cases hp
+  · refine ⟨fun p hp => by simp [genExtPermission] at hp, fun p hp => ?_⟩
+    cases tcp <;> simp only [genExtPrincipal, Bool.false_eq_true, if_false, if_true, Option.some.injEq] at hp
+    · subst hp
+      simp only [evalM, eval_jwtClaimsList, specAtom]
+    · cases hp
+  · refine ⟨fun p hp => by simp [genExtPermission] at hp, fun p hp => ?_⟩
+    cases tcp <;> simp only [genExtPrincipal, Bool.false_eq_true, if_false, if_true] at hp
+    · cases hn : extractNameInNestedBrackets (trimPrefix attrRequestClaims key) with
+      | none => simp [hn] at hp
+      | some claims =>
+        simp only [hn, Option.some.injEq] at hp
+        subst hp
+        simp only [evalM, eval_jwtClaimsList, specAtom, hn]
+    · cases hp
+
+theorem evalVal_envoyFilterValue (v : Str) (x : MVal) :
+    evalVal (envoyFilterValue v) x =
+      if hasPrefix lbr v && hasSuffix rbr v then
+        (match x with | .strs l => l.any (strForm (trimSet "[]".toList v)) | .str _ => false)
+      else (match x with | .str s => strForm v s | .strs _ => false) := by
+  unfold envoyFilterValue
+  split
+  · cases x with
+    | str s => simp [evalVal]
+    | strs l =>
+      simp only [evalVal]
+      apply any_congr_mem
+      intro s _
+      exact evalVal_str_str _ s
+  · cases x with
+    | str s => exact evalVal_str_str v s
+    | strs l => simp [evalVal]
+
+/-- `experimental.envoy.filters.*[key]`: string or `[list]` values against dynamic metadata. -/
+theorem matcher_correct_envoy_filter (key : Str) (vs : List Str) (tcp : Bool) (req : Request) :
+    ExtExact .envoyFilter key vs tcp req := by
+  refine ⟨fun p hp => ?_, fun p hp => by simp [genExtPrincipal] at hp⟩
+  simp only [genExtPermission] at hp
+  cases hk : envoyFilterKey key with
+  | none => simp [hk] at hp
+  | some fk =>
+    obtain ⟨f, k⟩ := fk
+    simp only [hk, Option.some.injEq] at hp
+    subst hp
+    simp only [evalM, evalMeta, specAtom, hk]
+    cases hl : lookupMeta req f [k] with
+    | none => simp
+    | some x =>
+      simp only [evalVal_orMatcher, List.any_map]
+      apply any_congr_mem
+      intro v _
+      simp only [Function.comp, evalVal_envoyFilterValue]
+      split <;> cases x <;> rfl
+
 /-! ## 7. Discharging the hypotheses: decidable scope predicates -/
+
+theorem extScope_cases (g : Gen) (h : g.extInScope = true) :
+    (g = .requestAudiences ∨ g = .requestPresenter ∨ g = .requestClaim) ∨ g = .envoyFilter := by
+  cases g <;> simp [Gen.extInScope] at h <;> simp
 
 theorem ruleExact_of_scope (o : BuildOpts) (req : Request) (pns : Str) (r : Rule)
     (hs : ruleInScope pns r = true) (hr : req.peerOK = true) : RuleExact o req pns r := by
@@ -157,17 +305,28 @@ theorem ruleExact_of_scope (o : BuildOpts) (req : Request) (pns : Str) (r : Rule
   unfold ruleInScope at hs
   simp only [hm, List.all_eq_true] at hs
   have h := hs rl hrl mr hmr
-  simp only [mruleInScope, Bool.and_eq_true, Bool.not_eq_true', List.all_eq_true] at h
+  simp only [mruleInScope, Bool.and_eq_true, Bool.or_eq_true, Bool.not_eq_true', List.all_eq_true] at h
   constructor
   · intro _ v hv
     exact matcher_correct_principals mr.g mr.key v o.forTCP o.useAuth req (h.2 v hv) hr
-  · intro hext; rw [h.1] at hext; cases hext
+  · intro hext
+    rcases h.1 with h1 | h1
+    · rw [h1] at hext; cases hext
+    · have hg := extScope_cases mr.g h1
+      rcases hg with hg | hg
+      · exact ⟨matcher_correct_jwt_claims mr.g mr.key _ o.forTCP req hg,
+          matcher_correct_jwt_claims mr.g mr.key _ o.forTCP req hg⟩
+      · rw [hg]
+        exact ⟨matcher_correct_envoy_filter mr.key _ o.forTCP req,
+          matcher_correct_envoy_filter mr.key _ o.forTCP req⟩
 
 theorem migrationNoop_of_B (o : BuildOpts) (pns : Str) (r : Rule) (h : migrationNoopB o pns r = true) :
-    MigrationNoop o pns r := by
-  intro m hm
+    MigrationNoop o pns r ∧ expandRule o.bundle r = r := by
   unfold migrationNoopB at h
-  simpa [hm] using h
+  simp only [Bool.and_eq_true, beq_iff_eq] at h
+  refine ⟨?_, h.2⟩
+  intro m hm
+  simpa [hm] using h.1
 
 theorem ruleTranslated_of_B (o : BuildOpts) (pns : Str) (r : Rule) (h : ruleTranslatedB o pns r = true) :
     RuleTranslated o pns r := by
@@ -188,7 +347,8 @@ theorem hyps_of_B (o : BuildOpts) (ps : List Policy) (req : Request) (h : hypsB 
     Hyps o ps req := by
   simp only [hypsB, Bool.and_eq_true, List.all_eq_true] at h
   obtain ⟨⟨h1, h2⟩, h3⟩ := h
-  exact { mig := fun p hp r hr => migrationNoop_of_B o p.ns r (h1 p hp r hr).1
+  exact { mig := fun p hp r hr => (migrationNoop_of_B o p.ns r (h1 p hp r hr).1).1
+          noalias := fun p hp r hr => (migrationNoop_of_B o p.ns r (h1 p hp r hr).1).2
           exact := fun p hp r hr => ruleExact_of_scope o req p.ns r (h1 p hp r hr).2 h2
           names := entriesDistinct_of_B o ps h3 }
 
@@ -203,12 +363,12 @@ theorem translatable_of_B (o : BuildOpts) (ps : List Policy) (h : translatableB 
 theorem compile_correct_http_checked (w : Workload) (o : BuildOpts) (ps : List Policy) (req : Request)
     (hhttp : o.forTCP = false)
     (h : hypsB o (selectPolicies w ps) req = true) (htr : translatableB o (selectPolicies w ps) = true) :
-    evalFilters (compile w o ps) req = specDecision w ps req :=
+    evalFilters (compile w o ps) req = specDecision w o.bundle ps req :=
   compile_correct_http w o ps req hhttp (hyps_of_B _ _ _ h) (translatable_of_B _ _ htr)
 
 theorem compile_failclosed_checked (w : Workload) (o : BuildOpts) (ps : List Policy) (req : Request)
     (h : hypsB o (selectPolicies w ps) req = true)
-    (hc : evalFilters (compile w o ps) req = true) : specDecision w ps req = true :=
+    (hc : evalFilters (compile w o ps) req = true) : specDecision w o.bundle ps req = true :=
   compile_failclosed w o ps req (hyps_of_B _ _ _ h) hc
 
 
@@ -526,6 +686,193 @@ theorem ruleMatches_eraseHttpOps_ge (req : Request) (pns : Str) (r : Rule)
     simp [specField, hm.2]
     simpa [specField] using hm.2
 
+
+/-! ## 11. Trust domain aliases -/
+
+/-- The trust-domain part of a five-part principal value is `*` or contains no `*`
+    (`td*/ns/..`-style values are outside the statement's reading of aliases). -/
+def plainTD (v : Str) : Bool :=
+  match splitOn '/' v with
+  | [td, _, _, _, _] => td == star || !td.contains '*'
+  | _ => true
+
+theorem hasPrefix_star_false (s : Str) (h : '*' ∉ s) : hasPrefix star s = false := by
+  cases s with
+  | nil => rfl
+  | cons c t =>
+    simp only [List.mem_cons, not_or] at h
+    simp [hasPrefix, star, List.isPrefixOf]
+    exact h.1
+
+theorem hasSuffix_star_false (s : Str) (h : '*' ∉ s) : hasSuffix star s = false := by
+  rw [Bool.eq_false_iff]
+  intro hs
+  rw [hasSuffix, List.isSuffixOf_iff_suffix] at hs
+  exact h (hs.subset (by simp [star]))
+
+theorem tdMatch_plain (a s : Str) (ha : '*' ∉ a) (hs : '*' ∉ s) :
+    (a == s || s == star || tdPrefixMatch a s || tdPrefixMatch s a || tdSuffixMatch a s || tdSuffixMatch s a) =
+      (s == a) := by
+  have hne : (s == star) = false := by
+    rw [Bool.eq_false_iff]; intro h; rw [beq_iff_eq] at h; subst h; exact hs (by simp [star])
+  simp only [tdPrefixMatch, tdSuffixMatch, hasSuffix_star_false s hs, hasSuffix_star_false a ha,
+    hasPrefix_star_false s hs, hasPrefix_star_false a ha, hne, Bool.false_and, Bool.or_false]
+  exact Bool.beq_comm
+
+theorem tdStringMatch_plain (a : Str) (l : List Str) (ha : '*' ∉ a) (hl : ∀ t ∈ l, '*' ∉ t) :
+    tdStringMatch a l = l.contains a := by
+  unfold tdStringMatch
+  induction l with
+  | nil => rfl
+  | cons s t ih =>
+    rw [List.any_cons, tdMatch_plain a s ha (hl s (by simp)), ih (fun x hx => hl x (List.mem_cons_of_mem _ hx))]
+    rw [List.contains_cons, Bool.beq_comm]
+
+theorem loop_mem (principal tdFrom : Str) (parts tds acc : List Str) (x : Str) :
+    x ∈ replaceTrustDomainsLoop principal tdFrom parts tds acc ↔
+      x ∈ acc ∨ ∃ t ∈ tds, x = (if tdSuffixMatch t tdFrom then principal else replaceTD t parts) := by
+  induction tds generalizing acc with
+  | nil => simp [replaceTrustDomainsLoop]
+  | cons t ts ih =>
+    simp only [replaceTrustDomainsLoop]
+    rw [ih]
+    by_cases hc : acc.contains (if tdSuffixMatch t tdFrom then principal else replaceTD t parts) = true
+    · simp only [hc, if_true, List.mem_cons, exists_eq_or_imp]
+      constructor
+      · rintro (h | h)
+        · exact Or.inl h
+        · exact Or.inr (Or.inr h)
+      · rintro (h | h | h)
+        · exact Or.inl h
+        · left; rw [h]; simpa using hc
+        · exact Or.inr h
+    · have hc' : acc.contains (if tdSuffixMatch t tdFrom then principal else replaceTD t parts) = false := by
+        simpa using hc
+      simp only [hc', Bool.false_eq_true, if_false, List.mem_append, List.mem_singleton, List.mem_cons,
+        exists_eq_or_imp, List.not_mem_nil, or_false]
+      constructor
+      · rintro ((h | h) | h)
+        · exact Or.inl h
+        · exact Or.inr (Or.inl h)
+        · exact Or.inr (Or.inr h)
+      · rintro (h | h | h)
+        · exact Or.inl (Or.inl h)
+        · exact Or.inl (Or.inr h)
+        · exact Or.inr h
+
+/-- **`trustdomain_alias_correct`, one value.** `Bundle.ReplaceTrustDomainAliases` produces exactly
+    the values the statement's reading of aliases gives: a principal `<td>/ns/..` whose trust
+    domain is in the bundle (or is `cluster.local`) is named in every trust domain of the bundle,
+    anything else stays as it is. -/
+theorem trustdomain_alias_value (bundle : List Str) (v : Str) (hb : ∀ t ∈ bundle, '*' ∉ t)
+    (hv : plainTD v = true) (x : Str) :
+    x ∈ replaceTrustDomainAliases bundle [v] ↔ x ∈ aliasValues bundle v := by
+  unfold replaceTrustDomainAliases aliasValues plainTD at *
+  simp only [List.flatMap_cons, List.flatMap_nil, List.append_nil]
+  generalize hparts : splitOn '/' v = parts at *
+  match parts, hv with
+  | [], _ => simp
+  | [_], _ => simp
+  | [_, _], _ => simp
+  | [_, _, _], _ => simp
+  | [_, _, _, _], _ => simp
+  | _ :: _ :: _ :: _ :: _ :: _ :: _, _ => simp
+  | [td, a, b, c, d], hv =>
+    simp only [List.length_cons, List.length_nil, Nat.zero_add, Nat.reduceAdd, bne_self_eq_false,
+      List.head?_cons, Bool.false_or, List.headD_cons]
+    by_cases hstar : td = star
+    · subst hstar; simp
+    · have hne : (some td == some star) = false := by simpa using hstar
+      have hne2 : (td != star) = true := by simpa using hstar
+      have htd : '*' ∉ td := by
+        simp only [Bool.or_eq_true, beq_iff_eq, Bool.not_eq_true', List.contains_eq_mem,
+          decide_eq_false_iff_not] at hv
+        rcases hv with hv | hv
+        · exact absurd hv hstar
+        · exact hv
+      simp only [hne, Bool.false_eq_true, if_false, hne2, Bool.true_and,
+        tdStringMatch_plain td bundle htd hb]
+      by_cases hc : (bundle.contains td || td == clusterLocal) = true
+      · simp only [hc, if_true, loop_mem, List.not_mem_nil, false_or, List.mem_map]
+        have : ∀ t, tdSuffixMatch t td = false := by
+          intro t; simp [tdSuffixMatch, hasPrefix_star_false td htd]
+        simp only [this, Bool.false_eq_true, if_false]
+        constructor
+        · rintro ⟨t, ht, rfl⟩
+          exact ⟨t, ht, by simp [replaceTD, join]⟩
+        · rintro ⟨t, ht, rfl⟩
+          exact ⟨t, ht, by simp [replaceTD, join]⟩
+      · simp only [hc, Bool.false_eq_true, if_false]
+
+/-- ... and for a whole value list (`principals`, `notPrincipals`, `source.principal`). -/
+theorem trustdomain_alias_correct (bundle : List Str) (vs : List Str) (hb : ∀ t ∈ bundle, '*' ∉ t)
+    (hv : ∀ v ∈ vs, plainTD v = true) (x : Str) :
+    x ∈ replaceTrustDomainAliases bundle vs ↔ x ∈ vs.flatMap (aliasValues bundle) := by
+  induction vs with
+  | nil => simp [replaceTrustDomainAliases]
+  | cons v t ih =>
+    have h1 := trustdomain_alias_value bundle v hb (hv v (by simp)) x
+    have h2 := ih (fun w hw => hv w (List.mem_cons_of_mem _ hw))
+    unfold replaceTrustDomainAliases at h1 h2 ⊢
+    simp only [List.flatMap_cons, List.flatMap_nil, List.append_nil, List.mem_append] at h1 h2 ⊢
+    rw [h1, h2]
+
+theorem filterDuplicates_mem (l acc : List Str) (x : Str) :
+    x ∈ filterDuplicates l acc ↔ x ∈ acc ∨ x ∈ l := by
+  induction l generalizing acc with
+  | nil => simp [filterDuplicates]
+  | cons a t ih =>
+    simp only [filterDuplicates]
+    rw [ih]
+    by_cases hc : acc.contains a = true
+    · simp only [hc, if_true, List.mem_cons]
+      constructor
+      · rintro (h | h)
+        · exact Or.inl h
+        · exact Or.inr (Or.inr h)
+      · rintro (h | h | h)
+        · exact Or.inl h
+        · left; rw [h]; simpa using hc
+        · exact Or.inr h
+    · have hc' : acc.contains a = false := by simpa using hc
+      simp only [hc', Bool.false_eq_true, if_false, List.mem_append, List.mem_singleton, List.mem_cons,
+        List.not_mem_nil, or_false]
+      constructor
+      · rintro ((h | h) | h)
+        · exact Or.inl h
+        · exact Or.inr (Or.inl h)
+        · exact Or.inr (Or.inr h)
+      · rintro (h | h | h)
+        · exact Or.inl (Or.inl h)
+        · exact Or.inl (Or.inr h)
+        · exact Or.inr h
+
+/-- `Bundle.ExpandTrustDomainAliases`: a `trustDomains` value that is one of the mesh's trust
+    domains stands for all of them. -/
+theorem trustdomain_expand_correct (bundle vs : List Str) (x : Str) :
+    x ∈ expandTrustDomainAliases bundle vs ↔ x ∈ vs.flatMap (aliasTD bundle) := by
+  unfold expandTrustDomainAliases aliasTD
+  rw [filterDuplicates_mem]
+  simp
+
+theorem any_congr_set {l1 l2 : List Str} (h : ∀ x, x ∈ l1 ↔ x ∈ l2) (f : Str → Bool) :
+    l1.any f = l2.any f := by
+  rw [Bool.eq_iff_iff, List.any_eq_true, List.any_eq_true]
+  constructor
+  · rintro ⟨x, hx, hf⟩; exact ⟨x, (h x).1 hx, hf⟩
+  · rintro ⟨x, hx, hf⟩; exact ⟨x, (h x).2 hx, hf⟩
+
+/-- Consequence for matching: with aliases, a peer matches the migrated `principals` values iff it
+    matches the policy's values read in any aliased form. -/
+theorem trustdomain_alias_matches (bundle vs : List Str) (hb : ∀ t ∈ bundle, '*' ∉ t)
+    (hv : ∀ v ∈ vs, plainTD v = true) (req : Request) :
+    (replaceTrustDomainAliases bundle vs).any (specAtom .srcPrincipal attrSrcPrincipal · req) =
+      (vs.flatMap (aliasValues bundle)).any (specAtom .srcPrincipal attrSrcPrincipal · req) :=
+  any_congr_set (trustdomain_alias_correct bundle vs hb hv) _
+
+example : replaceTrustDomainAliases ["td1".toList, "old-td".toList] ["cluster.local/ns/foo/sa/bar".toList, "*/ns/x/sa/y".toList, "other/ns/a/sa/b".toList] =
+    ["td1/ns/foo/sa/bar".toList, "old-td/ns/foo/sa/bar".toList, "*/ns/x/sa/y".toList, "other/ns/a/sa/b".toList] := by decide
+
 /-! ## 9. Non-vacuity: a concrete policy set and request meet every hypothesis -/
 
 def exOpts : BuildOpts := { bundle := ["cluster.local".toList], forTCP := false, useAuth := true }
@@ -554,7 +901,7 @@ def exReq : Request :=
 example : hypsB exOpts (selectPolicies exWl exPolicies) exReq = true := by decide
 example : translatableB exOpts (selectPolicies exWl exPolicies) = true := by decide
 example : evalFilters (compile exWl exOpts exPolicies) exReq = true := by decide
-example : specDecision exWl exPolicies exReq = true := by decide
+example : specDecision exWl exOpts.bundle exPolicies exReq = true := by decide
 
 
 end IstioModel.C08
